@@ -273,8 +273,10 @@ class ESpec:
                 return 'sa~' + hx(val)
             if k == 'pfx':
                 return 'pfx~' + hx(val)
+            if k == 'crate':
+                return 'crate'
             return k
-        attrs = '|'.join(';'.join(item(it) for it in g) for g in self.strum_groups()) or '-'
+        attrs = '|'.join(';'.join(item(it) for it in g) for g in self.strum_groups(self.extra.get('strum_path', 'strum'))) or '-'
         ra = '/'.join('+'.join(h.replace('(', '').replace(')', '') for h in a) for a in self.repr_attrs()) or '-'
         return ('rawenum %s name=%s attrs=%s reprattrs=%s dname=%s dvis=%d'
                 % (self.id, hx(self.name), attrs, ra, opt(self.extra.get('dname')), self.extra.get('dvis', 0)))
